@@ -120,6 +120,17 @@ func scheduleProjects(c *core.Ctx, n, years int) []*gen.Project {
 			p.Fert = append(p.Fert, gen.FertEv{Date: d, Kg: 5 + r.Intn(250), Type: gen.Fertilisers[r.Intn(len(gen.Fertilisers))]})
 		}
 		idates := append(append(pre(), mk(1+r.Intn(5), false, false)...), post()...)
+		// irrigation is applied on its date: the first and the last simulated day are days like any other
+		switch i % 3 {
+		case 0:
+			idates = append(idates, b)
+		case 1:
+			idates = append(idates, e)
+		}
+		if i%4 == 2 {
+			idates = append(idates, e-1)
+		}
+		sort.Ints(idates)
 		seen := map[int]bool{}
 		for _, d := range idates {
 			if seen[d] {
@@ -131,6 +142,9 @@ func scheduleProjects(c *core.Ctx, n, years int) []*gen.Project {
 		nl := p.Soil.Horizons[len(p.Soil.Horizons)-1].LowerDm
 		for ti, d := range append(append(pre(), mk(r.Intn(4)+i%2, true, true)...), post()...) {
 			cm := []int{5, 10, 15, 20, 25, 30, 40, 50}[r.Intn(8)]
+			if r.Intn(2) == 0 {
+				cm = 1 + r.Intn(44)
+			}
 			for cm > nl*10-6 && cm > 5 {
 				cm -= 5
 			}
